@@ -23,6 +23,10 @@ class Joiner:
         self.first = first
         self._delta_cache = {}
         self.merged = {}
+        self.lost_ef_a = {}
+        self.lost_ef_b = {}
+        self.seq_sites = []
+        self.phi_path = {}
 
     # ---- symbols
     def sym(self, a, b, path):
@@ -33,6 +37,7 @@ class Joiner:
         key = ("phi", self.at, path)
         p = st.get(key, (min(ra[0], rb[0]), max(ra[1], rb[1])))
         self.phis.append((p, a, b))
+        self.phi_path[p] = path
         self.sa.setdefault(a, p)
         self.sb.setdefault(b, p)
         return p
@@ -83,10 +88,13 @@ class Joiner:
                 el = sa_.elem
             else:
                 el = self.val(sa_.elem, sb_.elem, path + ("elem",))
-            ef = tuple(f for f in sa_.efacts if f in sb_.efacts)
+            ef = ()  # fixed up in run() once the symbol renamings are complete
             data = sa_.data if sa_.data == sb_.data else None
             kind = sa_.kind if sa_.kind == sb_.kind else ("str" if sa_.kind in byteish else "slice")
-            return Seq(kind, ln, el, ef, data, sa_.prov | sb_.prov)
+            q = Seq(kind, ln, el, ef, data, sa_.prov | sb_.prov)
+            if sa_.efacts or sb_.efacts:
+                self.seq_sites.append((q, sa_.efacts, sb_.efacts, sa_.len, sb_.len))
+            return q
         if ta is Ref and tb is Ref:
             if a.cell == b.cell and a.path == b.path:
                 return a if a.mut == b.mut else Ref(a.cell, a.path, a.mut and b.mut)
@@ -281,6 +289,23 @@ class Joiner:
                         if p not in lj.t:
                             J.lin[p] = lj
                             break
+        # element facts of joined sequences: equal after renaming both sides into J's symbols
+        for q, efa, efb, lna, lnb in self.seq_sites:
+            ra = [(fp, l.rename(self.sa) if any(x in self.sa for x in l.t) else l) for fp, l in efa]
+            rb = [(fp, l.rename(self.sb) if any(x in self.sb for x in l.t) else l) for fp, l in efb]
+            if A.ivof(lna) == D.point(0):
+                common = rb  # an empty sequence satisfies every element fact
+            elif B.ivof(lnb) == D.point(0):
+                common = ra
+            else:
+                common = [t for t in ra if t in rb]
+            q.efacts = tuple(common)
+            la = [t for t in ra if t not in common]
+            lb = [t for t in rb if t not in common]
+            if la:
+                self.lost_ef_a.setdefault(q.len, set()).update(la)
+            if lb:
+                self.lost_ef_b.setdefault(q.len, set()).update(lb)
         # conditional deltas for enums / booleans
         for e, ea, eb in self.enum_sites:
             when = {}
@@ -288,7 +313,7 @@ class Joiner:
                 da = self._delta(A, ea.when.get(k), self.sa) if k in ea.variants else None
                 db = self._delta(B, eb.when.get(k), self.sb) if k in eb.variants else None
                 d = da if db is None else (db if da is None else self._join_delta(da, db))
-                if d is not None and (d.iv or d.facts):
+                if d is not None and (d.iv or d.facts or d.ef):
                     when[k] = d
             e.when = when
         for p, a, b in self.phis:
@@ -317,8 +342,9 @@ class Joiner:
     def _phi_relations(self, mab, mba):
         A, B, J = self.A, self.B, self.J
         ints = [(p, a, b) for p, a, b in self.phis if J.st.range(p) != (0, 1)]
-        if not ints or len(ints) > 12:
+        if not ints or len(ints) > 60:
             return
+        many = len(ints) > 12
         stale = self.stale_a | self.stale_b
         phi_ids = {p for p, _, _ in self.phis}
 
@@ -330,13 +356,25 @@ class Joiner:
                     out.update(f.t)
             return out
 
-        for p, a, b in ints:
+        fa = set()
+        for f in A.facts:
+            fa.update(f.t)
+        fb = set()
+        for f in B.facts:
+            fb.update(f.t)
+
+        def interesting(X, x, fx):
+            return x in X.lin or x in fx or bool(set(X.term(x).t) & fx)
+
+        ints = [(p, a, b) for p, a, b in ints if interesting(A, a, fa) or interesting(B, b, fb)]
+        many = len(ints) > 12
+        for p, a, b in ints[:24]:
             cands = (related(A, a) | related(B, b) | {a, b}) - phi_ids - stale
             cands = [t for t in cands if t in A.iv and t in B.iv and not isinstance(t, tuple)]
             for t in sorted(cands)[:8]:
                 ta, tb = A.term(t), B.term(t)
                 for sign in (1, -1):
-                    for c in (1, 0):
+                    for c in (1, 0, -1):
                         ga = A.term(a).sub(ta).scale(sign).addc(c)
                         gb = B.term(b).sub(tb).scale(sign).addc(c)
                         if A.entails(ga) and B.entails(gb):
@@ -346,8 +384,10 @@ class Joiner:
             for j in range(i + 1, len(ints)):
                 p, pa, pb = ints[i]
                 q, qa, qb = ints[j]
+                if many and self.phi_path.get(p, (None,))[0] != self.phi_path.get(q, (0,))[0]:
+                    continue  # with many phis only relate fields of the same cell
                 for sign in (1, -1):
-                    for c in (1, 0):
+                    for c in (1, 0, -1):
                         ga = A.term(pa).sub(A.term(qa)).scale(sign).addc(c)
                         gb = B.term(pb).sub(B.term(qb)).scale(sign).addc(c)
                         if A.entails(ga) and B.entails(gb):
@@ -408,7 +448,12 @@ class Joiner:
             fj = f.rename(sx) if any(s in sx for s in f.t) else f
             if fj not in facts:
                 facts.append(fj)
-        return Delta(iv, facts[:24], base.gen)
+        ef = dict(base.ef)
+        for ln, ts in extra.ef.items():
+            jl = sx.get(ln, ln)
+            ts = tuple((fp, l.rename(sx) if any(x in sx for x in l.t) else l) for fp, l in ts)
+            ef[jl] = tuple(ef.get(jl, ())) + tuple(t for t in ts if t not in ef.get(jl, ()))
+        return Delta(iv, facts[:24], base.gen, ef)
 
     def _delta0(self, X, extra, sx):
         J = self.J
@@ -438,7 +483,9 @@ class Joiner:
         for f in facts:
             for s in f.t:
                 gen[s] = J.gen.get(s, 0)
-        return Delta(iv, facts, gen)
+        lost = self.lost_ef_a if X is self.A else self.lost_ef_b
+        ef = {ln: tuple(sorted(ts, key=repr)) for ln, ts in lost.items()} if lost else None
+        return Delta(iv, facts, gen, ef)
 
     def _join_delta(self, a, b):
         iv = {}
@@ -453,7 +500,9 @@ class Joiner:
         if a.gen is not None and b.gen is not None:
             gen = dict(a.gen)
             gen.update(b.gen)
-        return Delta(iv, facts, gen)
+        ef = {ln: tuple(t for t in ts if t in b.ef.get(ln, ())) for ln, ts in a.ef.items() if ln in b.ef}
+        ef = {ln: ts for ln, ts in ef.items() if ts}
+        return Delta(iv, facts, gen, ef)
 
 
 def _merge_logs(a, b):
